@@ -2008,6 +2008,15 @@ class Interp:
         if d == "builtins.print":
             self.effect("print", tuple(args), kwargs.get("file"))
             return None
+        if d in ("sys.stderr.write", "sys.stdout.write") and len(args) == 1:
+            # stream.write(text): recorded like print(text, end='', file=stream); one trailing newline is the line end consumers add back
+            t_ = args[0]
+            if isinstance(t_, str) and not is_sym(t_) and t_.endswith("\n"):
+                t_ = t_[:-1]
+            self.effect("print", (t_,), Ext(d.rsplit(".", 1)[0]))
+            return None
+        if d in ("sys.stderr.flush", "sys.stdout.flush"):
+            return None
         if d == "builtins.super":
             if args:
                 raise Unsupported("super with args")
